@@ -13,6 +13,19 @@ REPO_SRC = os.path.join(REPO, "src")
 GUARD = "AIOSWITCHER_VERIF"
 
 
+VARIANT = os.environ.get("VERIF_VARIANT", "")
+# "hostile host": the same checks in an interpreter that strips assert statements (python -O) and runs under the C locale
+# without UTF-8 mode (file-system encoding ASCII).  Nothing in the 19 statements depends on either.
+VARIANT_ENV = {"hostile-host": {"PYTHONOPTIMIZE": "1", "LC_ALL": "C", "LANG": "C", "PYTHONUTF8": "0",
+                                "PYTHONCOERCECLOCALE": "0", "PYTHONIOENCODING": "utf-8"}}
+
+
+def variant_env(name):
+    env = dict(os.environ, VERIF_VARIANT=name, PYTHONHASHSEED="0")
+    env.update(VARIANT_ENV[name])
+    return env
+
+
 class HarnessError(Exception):
     """Environment / harness problem: reported with exit status 2."""
 
